@@ -4,6 +4,7 @@ import (
 	"encoding/json"
 	"fmt"
 	"os"
+	"path/filepath"
 	"regexp"
 	"runtime"
 	"sort"
@@ -30,19 +31,23 @@ type Result struct {
 	Sig     string `json:"sig,omitempty"`
 	Msg     string `json:"msg,omitempty"`
 	// measurements
-	Calls        int              `json:"calls"`
-	MaxUs        map[string]int64 `json:"max_us"` // per op
-	P99Us        map[string]int64 `json:"p99_us"`
-	ReaderGets   int              `json:"reader_gets"`
-	BytesWritten int              `json:"bytes_written"`
-	BytesAtBlock int              `json:"bytes_after_attach_at_block,omitempty"`
-	DropMs       int64            `json:"drop_ms"` // end of workload -> faulty session absent (-1: still present)
-	DropBoundMs  int64            `json:"drop_bound_ms"`
-	ConvergeMs   int64            `json:"converge_ms"`
-	ProxyBytes   int64            `json:"proxy_bytes,omitempty"`
-	FaultyStats  map[string]any   `json:"faulty_stats,omitempty"`
-	Sessions     []string         `json:"sessions_at_end,omitempty"`
-	WorkMs       int64            `json:"work_ms"`
+	Calls           int              `json:"calls"`
+	MaxUs           map[string]int64 `json:"max_us"` // per op
+	P99Us           map[string]int64 `json:"p99_us"`
+	ReaderGets      int              `json:"reader_gets"`
+	BytesWritten    int              `json:"bytes_written"`
+	BytesAtBlock    int              `json:"bytes_after_attach_at_block,omitempty"`
+	DropMs          int64            `json:"drop_ms"` // end of workload -> faulty session absent (-1: still present)
+	DropBoundMs     int64            `json:"drop_bound_ms"`
+	ConvergeMs      int64            `json:"converge_ms"`
+	ProxyBytes      int64            `json:"proxy_bytes,omitempty"`
+	FaultyStats     map[string]any   `json:"faulty_stats,omitempty"`
+	Sessions        []string         `json:"sessions_at_end,omitempty"`
+	WorkMs          int64            `json:"work_ms"`
+	PreEntries      int              `json:"pre_entries,omitempty"`
+	LogFilesAtStart int              `json:"log_files_at_start"` // primary's log directory when the replication primary started
+	LogFilesAtEnd   int              `json:"log_files_at_end"`   // ... at the verdict (no rotation happens in between: the difference was removed by retention)
+	AckerAcks       int64            `json:"acker_acks,omitempty"`
 }
 
 // ChildSpec is the input of a child.
@@ -291,11 +296,50 @@ func runCase(spec *ChildSpec) *Result {
 		Interval: time.Duration(c.HB.IntervalMs) * time.Millisecond, Timeout: time.Duration(c.HB.TimeoutMs) * time.Millisecond,
 		SendEmptyResponses: c.HB.SendEmpty}
 	cfg := drive.Cfg{MemTableSize: bigMem, MaxMemTables: 4, SyncMode: 0, SyncBytes: 4096}
-	prim, err := startPrimary(mkdir(spec.Base, "primary"), cfg, pc)
+	pcfg := cfg
+	pcfg.SyncMode = c.Sync
+	pdir := mkdir(spec.Base, "primary")
+	preEntries := 0
+	if c.Pre != nil {
+		// the earlier lifetime of the primary's directory (no replication yet)
+		e, err := drive.Open(pdir, pcfg)
+		if err != nil {
+			return infra("pre-history open: %v", err)
+		}
+		ops, flushAfter := preOps(c)
+		for i, o := range ops {
+			if o.Op == "put" {
+				err = e.Put(c.Keys[o.K], o.V.Bytes())
+			} else {
+				err = e.Delete(c.Keys[o.K])
+			}
+			if err != nil {
+				return infra("pre-history op %d: %v", i, err)
+			}
+			if flushAfter[i] {
+				if err := e.FlushImMemTables(); err != nil {
+					return infra("pre-history flush: %v", err)
+				}
+				drive.Quiesce(e)
+			}
+		}
+		preEntries = len(ops)
+		drive.Quiesce(e)
+		if err := e.Close(); err != nil {
+			return infra("pre-history close: %v", err)
+		}
+	}
+	prim, err := startPrimary(pdir, pcfg, pc)
 	if err != nil {
 		return infra("%v", err)
 	}
 	r.prim = prim
+	walFiles := func() int {
+		m, _ := filepath.Glob(filepath.Join(pdir, "wal", "*.wal"))
+		return len(m)
+	}
+	res.LogFilesAtStart = walFiles()
+	res.PreEntries = preEntries
 	var healthy []*Node
 	for i := 0; i < c.Healthy; i++ {
 		name := fmt.Sprintf("healthy%d", i)
@@ -311,7 +355,44 @@ func runCase(spec *ChildSpec) *Result {
 		for dl := time.Now().Add(10 * time.Second); time.Now().Before(dl) && !hasSession(prim.Mgr, n.Addr); time.Sleep(5 * time.Millisecond) {
 		}
 	}
+	if preEntries > 0 {
+		// every healthy replica holds the pre-history before the first replicated
+		// write and before anything is acknowledged: from then on it only needs
+		// entries of the current log file, which retention never removes (a replica
+		// that still needed a removed file could not catch up without a bootstrap,
+		// which is outside this property)
+		r.setStep("wait-prehistory-delivered")
+		for _, n := range healthy {
+			ok := false
+			for dl := time.Now().Add(30 * time.Second); time.Now().Before(dl); time.Sleep(10 * time.Millisecond) {
+				if v, _ := replicaStatus(n.Mgr)["entries_applied"].(uint64); v >= uint64(preEntries) {
+					ok = true
+					break
+				}
+			}
+			if !ok {
+				res.Verdict, res.Sig = "abandon", "prehistory-not-delivered"
+				res.Msg = fmt.Sprintf("%s did not apply the %d pre-history entries within 30 s of connecting: %v", n.Name, preEntries, replicaStatus(n.Mgr))
+				return res
+			}
+		}
+	}
+	var ackers []*nackClient
+	for i := 0; i < c.Ackers; i++ {
+		a, err := startNackClient(prim.Addr, fmt.Sprintf("acker-%d.test:7002", i), NackSpec{Mode: "lossy", Ack: true})
+		if err != nil {
+			return infra("acker: %v", err)
+		}
+		ackers = append(ackers, a)
+	}
 	r.setStep("")
+	finishLog := func() {
+		res.LogFilesAtEnd = walFiles()
+		for _, a := range ackers {
+			res.AckerAcks += a.acks.Load()
+		}
+	}
+	defer finishLog()
 
 	// ---- fault injection ---------------------------------------------------
 	var (
@@ -429,8 +510,11 @@ func runCase(spec *ChildSpec) *Result {
 					res.Sessions = sessionsTimed(prim.Mgr, 5*time.Second)
 					res.Verdict = "violation"
 					res.Sig = fmt.Sprintf("faulty-session-not-dropped:fault=%s:hb_empty=%v", c.Fault.Class, c.HB.SendEmpty)
-					res.Msg = fmt.Sprintf("%d ms after its connection was blackholed on an idle primary (10 x heartbeat timeout %d ms) GetNodeInfo still lists the replica %s; sessions in Status(): %v",
-						time.Since(q0).Milliseconds(), c.HB.TimeoutMs, faultyAddr, res.Sessions)
+					res.Msg = fmt.Sprintf("%d ms after its connection was blackholed on an idle primary (10 x heartbeat timeout %d ms) GetNodeInfo still lists the replica %s; sessions in Status(): %v; its session: %s",
+						time.Since(q0).Milliseconds(), c.HB.TimeoutMs, faultyAddr, res.Sessions, sessionInfo(prim.Mgr, faultyAddr)) + "\n" + primaryStacks()
+					if c.Pre != nil {
+						res.Sig += ":prehistory"
+					}
 					return res
 				}
 			}
@@ -507,8 +591,8 @@ func runCase(spec *ChildSpec) *Result {
 		if dropRequired(c.Fault.Class) && res.DropMs < 0 {
 			res.Verdict = "violation"
 			res.Sig = fmt.Sprintf("faulty-session-not-dropped:fault=%s:hb_empty=%v", c.Fault.Class, c.HB.SendEmpty)
-			res.Msg = fmt.Sprintf("%d ms after the end of the workload (10 x heartbeat timeout %d ms) GetNodeInfo still lists the %s replica %s; sessions in Status(): %v",
-				time.Since(endWork).Milliseconds(), c.HB.TimeoutMs, c.Fault.Class, faultyAddr, res.Sessions)
+			res.Msg = fmt.Sprintf("%d ms after the end of the workload (10 x heartbeat timeout %d ms) GetNodeInfo still lists the %s replica %s; sessions in Status(): %v; its session: %s",
+				time.Since(endWork).Milliseconds(), c.HB.TimeoutMs, c.Fault.Class, faultyAddr, res.Sessions, sessionInfo(prim.Mgr, faultyAddr)) + "\n" + primaryStacks()
 			return res
 		}
 	}
@@ -638,4 +722,44 @@ func doStep(e *engine.EngineFacade, c *Case, s Step) (int, error) {
 		return n, tx.Commit()
 	}
 	return 0, fmt.Errorf("unknown op %q", s.Op)
+}
+
+// sessionInfo renders what Status() says about the sessions of one listener address.
+func sessionInfo(m *replication.Manager, addr string) string {
+	ch := make(chan string, 1)
+	go func() {
+		st := m.Status()
+		reps, _ := st["replicas"].([]map[string]interface{})
+		out := fmt.Sprintf("current_wal_sequence=%v;", st["current_wal_sequence"])
+		for _, r := range reps {
+			if r["listener_address"] == addr {
+				out += fmt.Sprintf(" {connected=%v active=%v last_ack=%v start=%v idle_s=%.2f}", r["connected"], r["active"], r["last_ack_sequence"], r["start_sequence"], r["idle_time_seconds"])
+			}
+		}
+		ch <- out
+	}()
+	select {
+	case s := <-ch:
+		return s
+	case <-time.After(5 * time.Second):
+		return "(Status() did not return)"
+	}
+}
+
+// primaryStacks returns the goroutines of the primary's replication code
+// (stream handlers, heartbeat monitor) for drop-clause messages.
+func primaryStacks() string {
+	buf := make([]byte, 2<<20)
+	buf = buf[:runtime.Stack(buf, true)]
+	var keep []string
+	for _, g := range strings.Split(string(buf), "\n\n") {
+		if strings.Contains(g, "replication.(*heartbeatManager)") || strings.Contains(g, "replication.(*Primary)") {
+			keep = append(keep, g)
+		}
+	}
+	out := strings.Join(keep, "\n\n")
+	if len(out) > 12000 {
+		out = out[:12000]
+	}
+	return out
 }
